@@ -180,7 +180,6 @@ func c19Creds() ([]c19Cred, error) {
 	}, nil
 }
 
-
 // c19Mint issues a certificate; parent == nil makes it self-signed.
 type c19MintOpts struct {
 	Subject  pkix.Name
@@ -625,94 +624,94 @@ func C19(tier string) int {
 	}
 	pairs := 0
 	phases := func(creds []c19Cred, seqNames []string) bool {
-	for _, cr := range creds {
-		cc, err := cr.Dial(srv.addr, 0)
-		if err != nil {
-			run.HarnessErr = err
-			return false
+		for _, cr := range creds {
+			cc, err := cr.Dial(srv.addr, 0)
+			if err != nil {
+				run.HarnessErr = err
+				return false
+			}
+			for _, m := range methods {
+				for _, w := range wallets {
+					if m.Op == "" && w != wallets[0] {
+						continue
+					}
+					if cell(cr, cc, m, w, "") != nil {
+						return false
+					}
+				}
+			}
+			cc.Close()
 		}
+		// Histories of two connections: a caller connects from a source address that another caller used before. Whatever
+		// the server remembers about the first must not be applied to the second.
+		pick := func(name string) c19Cred {
+			for _, c := range creds {
+				if c.Name == name {
+					return c
+				}
+			}
+			panic(name)
+		}
+		var seqCreds []c19Cred
+		for _, n := range seqNames {
+			seqCreds = append(seqCreds, pick(n))
+		}
+		var seqMethods []c19Method
 		for _, m := range methods {
-			for _, w := range wallets {
-				if m.Op == "" && w != wallets[0] {
-					continue
-				}
-				if cell(cr, cc, m, w, "") != nil {
-					return false
-				}
+			switch m.Name {
+			case "Lister.ListAccounts", "Signer.Sign", "Signer.SignBeaconAttestations", "DKG.Abort", "DKG.Prepare":
+				seqMethods = append(seqMethods, m)
 			}
 		}
-		cc.Close()
-	}
-	// Histories of two connections: a caller connects from a source address that another caller used before. Whatever
-	// the server remembers about the first must not be applied to the second.
-	pick := func(name string) c19Cred {
-		for _, c := range creds {
-			if c.Name == name {
-				return c
+		firsts, seconds := seqCreds, seqCreds
+		if tier == "thorough" {
+			firsts, seconds, seqMethods = creds, creds, methods
+		}
+		for _, first := range firsts {
+			if !first.Valid && tier != "thorough" {
+				continue // an unauthenticated first caller leaves nothing to remember; explored in the thorough tier only
 			}
-		}
-		panic(name)
-	}
-	var seqCreds []c19Cred
-	for _, n := range seqNames {
-		seqCreds = append(seqCreds, pick(n))
-	}
-	var seqMethods []c19Method
-	for _, m := range methods {
-		switch m.Name {
-		case "Lister.ListAccounts", "Signer.Sign", "Signer.SignBeaconAttestations", "DKG.Abort", "DKG.Prepare":
-			seqMethods = append(seqMethods, m)
-		}
-	}
-	firsts, seconds := seqCreds, seqCreds
-	if tier == "thorough" {
-		firsts, seconds, seqMethods = creds, creds, methods
-	}
-	for _, first := range firsts {
-		if !first.Valid && tier != "thorough" {
-			continue // an unauthenticated first caller leaves nothing to remember; explored in the thorough tier only
-		}
-		for _, second := range seconds {
-			for _, warm := range []string{"Lister.ListAccounts", "DKG.Abort"} {
-				port, err := freePort()
-				if err != nil {
-					run.HarnessErr = err
-					return false
-				}
-				cc1, err := first.Dial(srv.addr, port)
-				if err != nil {
-					run.HarnessErr = err
-					return false
-				}
-				for _, m := range methods {
-					if m.Name == warm {
-						if cell(first, cc1, m, "Wallet 1", "") != nil {
-							return false
+			for _, second := range seconds {
+				for _, warm := range []string{"Lister.ListAccounts", "DKG.Abort"} {
+					port, err := freePort()
+					if err != nil {
+						run.HarnessErr = err
+						return false
+					}
+					cc1, err := first.Dial(srv.addr, port)
+					if err != nil {
+						run.HarnessErr = err
+						return false
+					}
+					for _, m := range methods {
+						if m.Name == warm {
+							if cell(first, cc1, m, "Wallet 1", "") != nil {
+								return false
+							}
 						}
 					}
-				}
-				cc1.Close()
-				var cc2 *grpc.ClientConn
-				cc2, err = second.Dial(srv.addr, port)
-				if err != nil {
-					run.HarnessErr = err
-					return false
-				}
-				for _, m := range seqMethods {
-					for _, w := range wallets[:2] {
-						if m.Op == "" && w != wallets[0] {
-							continue
-						}
-						if cell(second, cc2, m, w, first.Name+" for "+warm) != nil {
-							return false
+					cc1.Close()
+					var cc2 *grpc.ClientConn
+					cc2, err = second.Dial(srv.addr, port)
+					if err != nil {
+						run.HarnessErr = err
+						return false
+					}
+					for _, m := range seqMethods {
+						for _, w := range wallets[:2] {
+							if m.Op == "" && w != wallets[0] {
+								continue
+							}
+							if cell(second, cc2, m, w, first.Name+" for "+warm) != nil {
+								return false
+							}
 						}
 					}
+					cc2.Close()
+					pairs++
 				}
-				cc2.Close()
-				pairs++
 			}
 		}
-	}
 		return true
 	}
 	if !phases(creds, []string{"valid client-test01", "valid client-test02", "valid signer-test02 (a peer)",
